@@ -135,6 +135,7 @@ func (s *repoState) dependents(l string) []string {
 type realRepo struct {
 	root, home, log, plz string
 	cache                string // "" = cache disabled
+	compress             bool
 }
 
 const catBody = `if [ -d $f ]; then (cd $f && find . -type f | LC_ALL=C sort | while read g; do echo $g; cat $g; done); else cat $f; fi`
@@ -150,6 +151,10 @@ func (r *realRepo) cmdFor(t *target) string {
 		return pre + "set -- $SRCS; mkdir $OUT; while read n c; do echo $c > $OUT/$n; done < $1"
 	case "const":
 		return pre + "echo " + t.Const + " > $OUT"
+	case "catn":
+		return pre + "for f in $SRCS; do echo $f; " + catBody + "; done > $OUT"
+	case "opt":
+		return pre + "for f in $SRCS; do " + catBody + "; done > $OUT; if [ -s $OUT ]; then cp $OUT $OUT.extra; fi"
 	}
 	panic("kind " + t.Kind)
 }
@@ -163,6 +168,9 @@ func (r *realRepo) write(s *repoState) error {
 		}
 	}
 	cfg := "[cache]\ndir = " + r.cache + "\n"
+	if r.compress {
+		cfg += "dircompress = true\n"
+	}
 	if err := os.WriteFile(filepath.Join(r.root, ".plzconfig"), []byte(cfg), 0o644); err != nil {
 		return err
 	}
@@ -184,8 +192,16 @@ func (r *realRepo) write(s *repoState) error {
 			for i, x := range t.Srcs {
 				srcs[i] = fmt.Sprintf("%q", x)
 			}
-			fmt.Fprintf(&b, "genrule(name=%q, srcs=[%s], outs=[%q], cmd=%q, visibility=[\"PUBLIC\"])\n",
-				nameOf(l), strings.Join(srcs, ", "), t.Out, r.cmdFor(t))
+			switch t.Kind {
+			case "fg":
+				fmt.Fprintf(&b, "filegroup(name=%q, srcs=[%s], visibility=[\"PUBLIC\"])\n", nameOf(l), strings.Join(srcs, ", "))
+			case "opt":
+				fmt.Fprintf(&b, "genrule(name=%q, srcs=[%s], outs=[%q], optional_outs=[\"*.extra\"], cmd=%q, visibility=[\"PUBLIC\"])\n",
+					nameOf(l), strings.Join(srcs, ", "), t.Out, r.cmdFor(t))
+			default:
+				fmt.Fprintf(&b, "genrule(name=%q, srcs=[%s], outs=[%q], cmd=%q, visibility=[\"PUBLIC\"])\n",
+					nameOf(l), strings.Join(srcs, ", "), t.Out, r.cmdFor(t))
+			}
 		}
 		os.MkdirAll(filepath.Join(r.root, pkg), 0o755)
 		if err := os.WriteFile(filepath.Join(r.root, pkg, "BUILD"), []byte(b.String()), 0o644); err != nil {
@@ -242,6 +258,11 @@ func (r *realRepo) tree(t *target) string {
 	}
 	if !st.IsDir() {
 		b, _ := os.ReadFile(p)
+		if t.Kind == "opt" {
+			if x, err := os.ReadFile(p + ".extra"); err == nil {
+				return "f:" + hx(string(b)) + "+x:" + hx(string(x))
+			}
+		}
 		return "f:" + hx(string(b))
 	}
 	ents, _ := os.ReadDir(p)
@@ -272,6 +293,9 @@ func (r *realRepo) snapshot(s *repoState, order []string) (string, map[string]st
 // contentOnly erases entry names from a tree rendering (the class predicate of the directory-hash finding).
 func contentOnly(tree string) string {
 	if strings.HasPrefix(tree, "f:") {
+		if i := strings.Index(tree, "+x:"); i >= 0 {
+			return decodeHex(tree[2:i]) + "\x00+x" + decodeHex(tree[i+3:])
+		}
 		return decodeHex(tree[2:])
 	}
 	if strings.HasPrefix(tree, "d:") {
@@ -350,9 +374,23 @@ func (g *gen) targetOp(t *target) string {
 func (g *gen) randomDef(label string, avail []string, out string) *target {
 	pkg := pkgOf(label)
 	t := &target{Label: label, Out: out}
-	switch g.r.Intn(10) {
+	switch g.r.Intn(14) {
 	case 0:
 		t.Kind, t.Const = "const", lib.Pick(g.r, constPool)
+	case 10, 11:
+		t.Kind = "catn"
+	case 12:
+		t.Kind = "opt"
+	case 13:
+		if strings.HasSuffix(out, ".out") || strings.HasSuffix(out, ".o2") { // only for fresh definitions: out = source name
+			t.Kind = "fg"
+			f := lib.Pick(g.r, []string{"x.txt", "y.txt"})
+			g.ensureFile(pkg, f)
+			t.Srcs = []string{f}
+			t.Out = f
+		} else {
+			t.Kind = "cat"
+		}
 	case 1, 2, 3:
 		t.Kind = "mkdir"
 		f := lib.Pick(g.r, []string{"names.txt", "n2.txt"})
@@ -363,7 +401,7 @@ func (g *gen) randomDef(label string, avail []string, out string) *target {
 	default:
 		t.Kind = "cat"
 	}
-	if t.Kind == "cat" || t.Kind == "catfirst" {
+	if t.Kind == "cat" || t.Kind == "catfirst" || t.Kind == "catn" || t.Kind == "opt" {
 		nf := g.r.Intn(3)
 		fs := append([]string{}, filePool...)
 		lib.Shuffle(g.r, fs)
@@ -435,6 +473,10 @@ func (g *gen) edit(run *lib.Run) {
 		run.Count("edit-file")
 	case k <= 5 && len(labels) > 0: // redefine a target (kind / srcs / const text), same output name
 		l := lib.Pick(g.r, labels)
+		if g.s.targets[l].Kind == "fg" { // a filegroup's output name is its source: keep it as it is
+			run.Count("edit-none")
+			return
+		}
 		t := g.randomDef(l, g.safeDeps(l), g.s.targets[l].Out)
 		// a consumer of a directory must stay well-formed for mkdir consumers: mkdir reads a file, never a label
 		g.emit(g.targetOp(t))
@@ -457,6 +499,10 @@ func (g *gen) edit(run *lib.Run) {
 	case k == 8 && len(labels) > 0: // rename an output
 		l := lib.Pick(g.r, labels)
 		t := *g.s.targets[l]
+		if t.Kind == "fg" {
+			run.Count("edit-none")
+			return
+		}
 		if strings.HasSuffix(t.Out, ".out") {
 			t.Out = strings.TrimSuffix(t.Out, ".out") + ".o2"
 		} else {
@@ -478,7 +524,11 @@ func (g *gen) edit(run *lib.Run) {
 func (g *gen) history(run *lib.Run, steps int) []string {
 	g.ops = []string{"reset"}
 	if *mode == "c02" {
-		g.ops = append(g.ops, "cacheon")
+		if g.r.Chance(50) {
+			g.ops = append(g.ops, "cacheon")
+		} else {
+			g.ops = append(g.ops, "cacheon z") // dircompress = true
+		}
 		if g.r.Chance(50) { // CollapseHash cross-check on a random 80-byte key (sometimes with rule = postRule)
 			key := make([]byte, 80)
 			for i := range key {
@@ -604,6 +654,12 @@ func runHistory(idx int, ops []string, scratch, plz string) ([]result, []oracleF
 			lastInputs = map[string]string{}
 			res = append(res, result{op, "ok", false})
 		case "cacheon":
+			if len(f) > 1 && f[1] == "z" {
+				rr.compress = true
+				counts["history-dircompress"]++
+			} else {
+				counts["history-dircache-plain"]++
+			}
 			res = append(res, result{op, "ok", false})
 		case "collapse":
 			key, _ := hex.DecodeString(f[1])
@@ -674,6 +730,8 @@ func runHistory(idx int, ops []string, scratch, plz string) ([]result, []oracleF
 					class := "incremental-differs-from-clean"
 					if contentOnly(lastIncr[l]) == contentOnly(trees[l]) && lastIncr[l] != "missing" {
 						class = "stale-output-dir-hash-ignores-entry-names"
+					} else if i := strings.Index(lastIncr[l], "+x:"); i >= 0 && !strings.Contains(trees[l], "+x:") && lastIncr[l][:i] == trees[l] {
+						class = "stale-optional-output-lingers" // declared output right; an optional output no longer produced is still there
 					}
 					fails = append(fails, oracleFail{class, histText + "\n# first stale target " + l + ": incremental " + lastIncr[l] + " clean " + trees[l] + " at: " + op})
 					counts["oracle:"+class]++
